@@ -59,6 +59,13 @@ fn pred_sql(p: &Pred) -> Option<String> {
             if !ok_col(*c) {
                 return None;
             }
+            // DataFusion 44.0 derives the common type of a BETWEEN from the
+            // column and the LOW bound only (optimizer/src/analyzer/type_coercion.rs
+            // passes low_type twice) and casts the high bound into it, truncating a
+            // float: where that differs from coercing all three operands, skip.
+            if matches!(kind_of(*c), Kind::Int | Kind::UInt) && matches!(hi, PV::F(_)) && !matches!(lo, PV::F(_)) {
+                return None;
+            }
             Some(format!("({} BETWEEN {} AND {})", cname(*c), lit_sql(*c, lo)?, lit_sql(*c, hi)?))
         }
         Pred::And(a, b) => Some(format!("({} AND {})", pred_sql(a)?, pred_sql(b)?)),
@@ -167,7 +174,7 @@ pub fn check_d(rt: &tokio::runtime::Runtime, c: &Case, report: &mut Report) -> b
 
 /// Records what the engine does where the model's IEEE reading differs (not judged).
 pub fn engine_float_notes(rt: &tokio::runtime::Runtime, report: &mut Report) {
-    let q = "SELECT CAST(-0.0 AS DOUBLE) < CAST(0.0 AS DOUBLE), CAST(-0.0 AS DOUBLE) = CAST(0.0 AS DOUBLE), CAST('NaN' AS DOUBLE) > CAST(5 AS DOUBLE), CAST(9007199254740996 AS DOUBLE) <= 9007199254740995";
+    let q = "SELECT CAST(-0.0 AS DOUBLE) < CAST(0.0 AS DOUBLE), CAST(-0.0 AS DOUBLE) = CAST(0.0 AS DOUBLE), CAST('NaN' AS DOUBLE) > CAST(5 AS DOUBLE), CAST(9007199254740996 AS DOUBLE) <= 9007199254740995, 9007199254740993 BETWEEN 0.5 AND 9007199254740992, 10 BETWEEN '10' AND 9";
     let r: Result<String, String> = rt.block_on(async {
         let ctx = SessionContext::new();
         let out = ctx.sql(q).await.map_err(|e| e.to_string())?.collect().await.map_err(|e| e.to_string())?;
@@ -179,5 +186,5 @@ pub fn engine_float_notes(rt: &tokio::runtime::Runtime, report: &mut Report) {
         }
         Ok(s.join(","))
     });
-    report.notes.push(format!("engine float semantics [-0.0 < 0.0, -0.0 = 0.0, NaN > 5, 2^53+4 as double <= 2^53+3]: {:?}", r));
+    report.notes.push(format!("engine semantics [-0.0 < 0.0, -0.0 = 0.0, NaN > 5, 2^53+4 as double <= 2^53+3, 2^53+1 BETWEEN 0.5 AND 2^53, 10 BETWEEN '10' AND 9]: {:?}", r));
 }
